@@ -18,6 +18,9 @@ package internal
 //@ fun ckAns(k int) bool
 //@ axiom keys-of-different-questions-differ: forall h string, q int, a bool :: 0 <= q && q <= 65535 ==> ckHost(ckey(h, q, 1, a)) == h && ckType(ckey(h, q, 1, a)) == q && ckAns(ckey(h, q, 1, a)) == a
 
+// (the same assumption for the type component in any class)
+//@ axiom keys-of-different-types-differ-in-any-class: forall h string, q int, c int, a bool :: 0 <= q && q <= 65535 && 0 <= c && c <= 65535 ==> ckType(ckey(h, q, c, a)) == q
+
 //@ func NewCacheKey
 //@   property C12
 //@   modifies hst, ipBytes
